@@ -108,6 +108,26 @@ MINE = {
  "C18-e": ("caught as built", ""),
  "C19-e": ("caught as built", ""),
  "C20-e": ("missed", "examples on fields that also carry rules (max_len/min_len/len in characters, max_bytes, pattern, in) with non-ASCII and astral text"),
+ "C01-f": ("missed", "request messages shared by several RPCs in C01 (bodiless verbs first / body verb first, two services)"),
+ "C02-f": ("missed", "decoy twin: every plugin invocation whose output an L2 check executes is preceded, in the same invocation, by a twin package declaring the same names with every sebuf annotation set otherwise (spec.WithDecoy / lab.RunDecoy)"),
+ "C03-f": ("missed", "routes whose request message declares the path-bound fields in another order than the path names them (2 and 3 variables; C01, C03, C08, C18)"),
+ "C04-f": ("missed", "features declared as nested types of a holder message after a map field, laid out as protoc lays them out (synthetic map-entry type first): C04, C05, C13"),
+ "C05-f": ("caught as built", ""),
+ "C06-f": ("missed", "C06 rules inside JSON-mapping constructs: flattened child (with/without prefix), oneof variants (flattened/nested), message, optional message, list and map elements, optional and nullable scalars; construct present and absent"),
+ "C07-f": ("missed", "feature with three flattened children of different message types and mixed prefixes"),
+ "C08-f": ("missed by C08 by design (a string for a number on the TS side is C07's question; caught by C07)", ""),
+ "C09-f": ("missed", "a header sharing its name with a query parameter and/or a path variable of the same RPC (service level, method level, case variant)"),
+ "C10-f": ("missed by C10 (headers are C09's subject; caught by C09's multi-method cases)", ""),
+ "C11-f": ("missed by C11 (concurrency is C17's subject; caught by C17's race monitor)", ""),
+ "C12-f": ("missed", "acceptance corpus: the same verb and path in two services, in one file and in two packages of one invocation"),
+ "C13-f": ("missed by C13's own build catalogue (caught by C15)", "the decoy twin has another import path and the SAME Go package name: every lab package is generated after a same-named package"),
+ "C14-f": ("missed", "protogen parameters under the interchange comparison (paths=source_relative, M mapping of timestamp.proto to the ptypes alias package, M mapping of the own file, module=); a codec file only the client plugin writes is a verdict"),
+ "C15-f": ("missed (hidden behind the recorded finding about document names: the comparison skipped files the multi-file run lacks)", "a file of the single-file run that the multi-file run does not emit is a verdict"),
+ "C16-f": ("missed", "2/3/9 services per file; every structural shape also on a single-CPU runner (GOMAXPROCS=1)"),
+ "C17-f": ("missed", "48 concurrent requests (16 wide) against every mock that picks examples, under the race detector (C20); found a harness fault on the way: bursts made only of hand-made requests never ran"),
+ "C18-f": ("caught as built", ""),
+ "C19-f": ("missed by C19 (caught by C06's structural rule cases)", "C19 judges the required list of every plain component schema of the structural service"),
+ "C20-f": ("missed", "the decoy twin carries other examples on the same message and field names under the same Go package name"),
 }
 
 
